@@ -143,6 +143,7 @@ pub const RULES: &[(&str, &[&str])] = &[
     ("lifecycle.iterator", &["C14"]),
     ("lifecycle.synthetic_timeout", &["C14", "C12"]),
     ("wait.livelock", &["C11", "C12", "C02"]),
+    ("wait.wakeup_ignored", &["C11", "C12"]),
 ];
 
 pub fn props_of(rule: &str) -> Vec<String> {
